@@ -147,6 +147,37 @@ class Ctx:
             self.cov["checker_cmd"] = res[0]["cmd"]
         return rej
 
+    def binding_selftest(self, module, shards, mode, cfg=None, heap="3g"):
+        """Anti-vacuity: corrupt one recorded field in a copy of the head of a shard; TLC must reject that line.
+        A trace specification that accepts the corrupted trace is not bound to the code: tool error."""
+        for shard in shards:
+            lines = []
+            with open(shard) as f:
+                for i, l in enumerate(f):
+                    if i >= 60:
+                        break
+                    lines.append(json.loads(l))
+            for k, e in enumerate(lines):
+                c = corrupt_event(e)
+                if c is None:
+                    continue
+                d = self.sub("selftest")
+                path = os.path.join(d, "corrupt.ndjson")
+                with open(path, "w") as f:
+                    for j, x in enumerate(lines):
+                        f.write(json.dumps(c if j == k else x) + "\n")
+                env = dict(VERIF_TRACE=path)
+                if mode:
+                    env["VERIF_MODE"] = mode
+                saved = (self.cov["states"], self.cov["transitions"])
+                r = self.tlc(module, cfg=cfg or module + ".cfg", env=env, heap=heap)
+                self.cov["states"], self.cov["transitions"] = saved
+                if (k + 1) not in r["rejects"]:
+                    raise ToolError("binding self-test failed: %s (mode %s) accepted a trace in which line %d was corrupted (%s)" % (module, mode, k + 1, c.get("_corrupted")))
+                self.notes["binding_selftest"] = "one recorded field corrupted (%s) in a copy of a trace: rejected at exactly that line" % c.get("_corrupted")
+                return
+        self.notes["binding_selftest"] = "no corruptible line found"
+
     # ---------------------------------------------------------------- verdicts
     def sample(self, x, cap=6):
         if len(self.cov["samples"]) < cap:
@@ -195,6 +226,57 @@ class Ctx:
             cov["traces_validated_against_impl"], cov["evaluations"], cov["distinct_nontrivial"], wall))
         sys.stdout.flush()
         return 1 if self.violations else 0
+
+
+def corrupt_event(e):
+    """Returns a copy of a recorded event with one observation changed, or None if this kind of line has none."""
+    c = json.loads(json.dumps(e))
+    ev = c.get("ev")
+    if ev is None and "pre" in c and "q" in c:                       # single step
+        c["q"] = list(c["q"]) + [0]
+        c["_corrupted"] = "queue got an extra entry"
+        return c
+    if ev == "cycle" and c.get("panic") == "" and c.get("cycle", -1) >= 0:
+        c["living"] = c.get("living", 0) + 1
+        c["_corrupted"] = "living count + 1"
+        return c
+    if ev == "spawn" and c.get("err") == 0 and c.get("q"):
+        c["living"] = c.get("living", 0) + 1
+        c["_corrupted"] = "living count + 1"
+        return c
+    if ev == "prog" and c["res"] and c["res"][0].get("err") == 0 and c["res"][0].get("code"):
+        c["res"][0]["code"][0][3] = (c["res"][0]["code"][0][3] + 1) % max(2, c["p"]["M"])
+        c["_corrupted"] = "A field of the first assembled instruction + 1"
+        return c
+    if ev == "out" and c["res"].get("err") == 0 and c["res"].get("code"):
+        c["res"]["code"][0][3] = c["M"]
+        c["_corrupted"] = "A field set to the core size"
+        return c
+    if ev == "rt" and c["res"] and c["res"][0]["r"].get("err") == 0:
+        c["res"][0]["r"]["start"] += 1
+        c["_corrupted"] = "entry point of the first reading + 1"
+        return c
+    if ev == "load" and c["res"].get("err") == 0 and c["res"].get("code"):
+        c["res"]["code"] = c["res"]["code"][:-1]
+        c["_corrupted"] = "last instruction of the result dropped"
+        return c
+    if ev == "listing" and c.get("produced") == 1 and c.get("got", {}).get("code"):
+        c["got"]["start"] = c["got"]["start"] + 1
+        c["_corrupted"] = "entry point + 1"
+        return c
+    if ev == "fuzz" and c.get("outcome") == "ok":
+        c["leak"] = 1
+        c["_corrupted"] = "a surviving goroutine claimed"
+        return c
+    if ev == "cli" and c.get("out") and c["out"][0]:
+        c["out"][0][0] += 1
+        c["_corrupted"] = "wins of warrior 1 + 1"
+        return c
+    if ev == "jobcmp" and len(c.get("results", [])) > 1:
+        c["results"][1] = {"err": 9}
+        c["_corrupted"] = "one run's result replaced"
+        return c
+    return None
 
 
 def tail_err(out, n=25):
